@@ -1,24 +1,43 @@
-// translate.go — tie 1, semantic part: a tiny translator from a Go subset to Lean 4
+// translate.go — tie 1, semantic part: a small translator from a Go subset to Lean 4
 // definitions, written to lean/Generated/Funcs.lean.  The bridge theorems of
 // lean/SlimProps/BridgeSem.lean equate the generated definitions with the
 // model's functions for all inputs, so a harmless rewrite of the Go source keeps
 // the tie and a change of meaning breaks a proof.
 //
-// Subset: function bodies made of `:=`, `=`, `op=`, `++`/`--` on integer locals,
-// `var x T [= e]`, `if`/`else` chains (without init statement) and `return` of
-// one integer expression or of a `[]byte{…}` literal; expressions over integer
-// locals, parameters and field selections with + - * / % << >> & | ^ &^,
-// unary - ^ +, integer constants, conversions between integer types, indexing of a
-// []byte / string.  Conditions: comparisons of integers, && || !.
+// Values and their Lean types:
+//
+//	sized integers            Nat   the bit pattern (< 2^w); see lean/Generated/GoSem.lean
+//	bool                      Bool
+//	*bool                     Option Bool   (nil = none; `*p` = p.getD false, Go would panic on nil)
+//	[]byte, string            List Nat      (values < 256)
+//	[]T for the above         List T'       (a slice PARAMETER that is compared with nil: Option (List T'))
+//
+// A signed integer RESULT is returned as Int (Go.toS); several results as a tuple; returning the
+// pointer-to-struct parameter returns the tuple of its fields.
+//
+// Statements: `:=`, `=`, `op=`, `++`/`--`, `var x T [= e]`, `x[i] = e` on a local slice,
+// `p.f = e` on a pointer-to-struct parameter (the fields are threaded like locals),
+// `if`/`else` chains (no init statement), `return`, calls to `must.Be.…` (debug assertions, no-ops),
+// and `for init; i < E; i++ { … }` / `i <= E` where `i` is the integer counter declared by `init`
+// with a non-negative constant, the body assigns neither `i` nor a variable of `E`, and contains no
+// return/break/continue.  A loop becomes a fuel-recursive auxiliary definition `<f>_loop<k>` over the
+// tuple of variables it assigns, called with fuel `E` (`E + 1`), which bounds the iteration count.
+//
+// Expressions: integer arithmetic `+ - * / % << >> & | ^ &^`, unary `- ^ +`, constants,
+// conversions between integer types, indexing, `len`, `make([]T, n)`, `append(s, e)`, `Bool(e)`,
+// comparisons, `&& || !`, `== nil` / `!= nil`, `*p`; and the specified primitives
+//
+//	bytes.Compare(a, b) != 0 / == 0   ↦  a != b / a == b   (byte-wise inequality)
+//	bits.OnesCount64(x)               ↦  Go.popcount64 x
+//	bitmap.Mask[k]                    ↦  Go.mask64 k        (= 2^k - 1)
+//
 // Anything else: fail("cannot translate …") — the translator never guesses.
 //
-// Meaning (lean/Generated/GoSem.lean): every Go integer is its bit pattern, a Nat
-// below 2^w; wrap-around, arithmetic shift, sign extension and signed comparison
-// are explicit.  A signed RESULT is returned as Int (Go.toS).  Identifiers that
-// are not locals of the translated fragment — parameters, fields such as
-// qr.keyBitLen, and, for extracted statements, the locals they read — become
-// parameters of the Lean definition: declared Go parameters first, in
-// declaration order, then the others sorted by name.
+// Identifiers that are not locals of the translated fragment — parameters, fields such as
+// qr.keyBitLen, and, for extracted statements, the locals they read — become parameters of the
+// Lean definition: declared Go parameters first, in declaration order (for a pointer-to-struct
+// parameter whose fields the function assigns: its fields, in field order), then the others
+// sorted by name.
 package main
 
 import (
@@ -34,9 +53,103 @@ import (
 	"strings"
 )
 
+// ---- types -------------------------------------------------------------------
+
 type intTy struct {
 	w      int
 	signed bool
+}
+
+type kind int
+
+const (
+	kInt kind = iota
+	kBool
+	kOptBool
+	kBytes
+	kSlice
+	kStruct
+)
+
+type gty struct {
+	k       kind
+	it      intTy
+	elem    *gty
+	nilable bool
+	fnames  []string // kStruct: field names …
+	ftys    []gty    // … and types
+}
+
+func (g gty) lean() string {
+	var s string
+	switch g.k {
+	case kInt:
+		s = "Nat"
+	case kBool:
+		s = "Bool"
+	case kOptBool:
+		s = "Option Bool"
+	case kBytes:
+		s = "List Nat"
+	case kSlice:
+		e := g.elem.lean()
+		if strings.Contains(e, " ") {
+			e = "(" + e + ")"
+		}
+		s = "List " + e
+	case kStruct:
+		var fs []string
+		for _, f := range g.ftys {
+			l := f.lean()
+			if strings.Contains(l, " ") {
+				l = "(" + l + ")"
+			}
+			fs = append(fs, l)
+		}
+		s = strings.Join(fs, " × ")
+	}
+	if g.nilable {
+		return "Option (" + s + ")"
+	}
+	return s
+}
+
+func (g gty) zero() string {
+	switch g.k {
+	case kInt:
+		return "0"
+	case kBool:
+		return "false"
+	case kOptBool:
+		return "none"
+	case kStruct:
+		var zs []string
+		for _, f := range g.ftys {
+			zs = append(zs, f.zero())
+		}
+		return tuple(zs)
+	}
+	return "[]"
+}
+
+// proj: the Lean projection of field `name` of a struct value (a right-nested tuple)
+func (g gty) proj(s, name string) (string, gty, bool) {
+	for i, n := range g.fnames {
+		if n == name {
+			if len(g.fnames) == 1 {
+				return s, g.ftys[i], true
+			}
+			p := s
+			for j := 0; j < i; j++ {
+				p += ".2"
+			}
+			if i < len(g.fnames)-1 {
+				p += ".1"
+			}
+			return p, g.ftys[i], true
+		}
+	}
+	return "", gty{}, false
 }
 
 func intTypeOf(t types.Type) (intTy, bool) {
@@ -82,10 +195,58 @@ func isByteSeq(t types.Type) bool {
 	return false
 }
 
+func isBool(t types.Type) bool {
+	if t == nil {
+		return false
+	}
+	b, ok := t.Underlying().(*types.Basic)
+	return ok && (b.Kind() == types.Bool || b.Kind() == types.UntypedBool)
+}
+
+func goKind(t types.Type) (gty, bool) {
+	if t == nil {
+		return gty{}, false
+	}
+	if it, ok := intTypeOf(t); ok {
+		return gty{k: kInt, it: it}, true
+	}
+	if isBool(t) {
+		return gty{k: kBool}, true
+	}
+	if isByteSeq(t) {
+		return gty{k: kBytes}, true
+	}
+	switch u := t.Underlying().(type) {
+	case *types.Pointer:
+		if isBool(u.Elem()) {
+			return gty{k: kOptBool}, true
+		}
+	case *types.Slice:
+		if e, ok := goKind(u.Elem()); ok {
+			return gty{k: kSlice, elem: &e}, true
+		}
+	case *types.Struct:
+		g := gty{k: kStruct}
+		for i := 0; i < u.NumFields(); i++ {
+			f, ok := goKind(u.Field(i).Type())
+			if !ok || u.NumFields() == 0 {
+				return gty{}, false
+			}
+			g.fnames = append(g.fnames, u.Field(i).Name())
+			g.ftys = append(g.ftys, f)
+		}
+		if len(g.fnames) > 0 {
+			return g, true
+		}
+	}
+	return gty{}, false
+}
+
 var leanReserved = map[string]bool{"at": true, "from": true, "end": true, "fun": true, "let": true, "in": true,
 	"if": true, "then": true, "else": true, "do": true, "have": true, "show": true, "with": true, "match": true,
 	"def": true, "open": true, "where": true, "by": true, "for": true, "instance": true, "structure": true,
-	"theorem": true, "namespace": true, "section": true, "variable": true, "universe": true, "Type": true, "Prop": true}
+	"theorem": true, "namespace": true, "section": true, "variable": true, "universe": true, "Type": true, "Prop": true,
+	"fuel": true, "st": true}
 
 func leanName(s string) string {
 	if leanReserved[s] {
@@ -94,19 +255,41 @@ func leanName(s string) string {
 	return s
 }
 
+// ---- the translator state -------------------------------------------------------
+
+// a function that has been translated with a pattern-level definition `<lean>` (all results as bit
+// patterns) and whose Lean parameters are exactly its Go parameters, in order: it can be called
+type callee struct {
+	lean    string
+	nparams int
+	results []gty
+}
+
+var translated = map[string]callee{}
+
 type leanParam struct {
-	name   string
-	key    string // identity: object address or selector source
-	isList bool
-	decl   int // position among the declared Go parameters, -1 for the others
+	name string
+	key  string // identity: object address or selector source
+	ty   gty
+	decl int // sort key of declared parameters (and their fields), -1 for the others
 }
 
 type funcTr struct {
-	what   string
-	info   *types.Info
-	bound  map[types.Object]bool
-	declAt map[types.Object]int
-	params []leanParam
+	what    string
+	info    *types.Info
+	files   []*ast.File
+	fd      *ast.FuncDecl
+	bound   map[types.Object]bool
+	declAt  map[types.Object]int
+	params  []leanParam
+	fields  map[string]string // source of a field selection that is threaded as a variable -> lean name
+	nilCmp  map[string]bool   // keys of slice variables that are compared with nil
+	used    map[string]bool   // lean names referenced (for the parameters of loop definitions)
+	tyOf    map[string]gty    // lean name -> type
+	aux     []string          // auxiliary (loop) definitions
+	forced  map[types.Object]types.Type
+	mutated map[types.Object]bool // pointer parameters whose fields the function assigns
+	loopCnt int
 }
 
 func (t *funcTr) fail(n ast.Node, why string) {
@@ -114,18 +297,77 @@ func (t *funcTr) fail(n ast.Node, why string) {
 }
 
 func (t *funcTr) typeOf(e ast.Expr) types.Type {
-	if tv, ok := t.info.Types[e]; ok {
-		return tv.Type
+	if tv, ok := t.info.Types[e]; ok && tv.Type != nil {
+		if b, isB := tv.Type.(*types.Basic); !isB || b.Kind() != types.Invalid {
+			return tv.Type
+		}
 	}
 	if id, ok := e.(*ast.Ident); ok {
-		if o := t.info.Uses[id]; o != nil {
-			return o.Type()
-		}
-		if o := t.info.Defs[id]; o != nil {
-			return o.Type()
+		for _, o := range []types.Object{t.info.Uses[id], t.info.Defs[id]} {
+			if o != nil {
+				if b, isB := o.Type().(*types.Basic); !isB || b.Kind() != types.Invalid {
+					return o.Type()
+				}
+				if ft, ok := t.forced[o]; ok {
+					return ft
+				}
+			}
 		}
 	}
 	return nil
+}
+
+var basicOf = map[intTy]types.BasicKind{{8, true}: types.Int8, {16, true}: types.Int16, {32, true}: types.Int32,
+	{64, true}: types.Int64, {8, false}: types.Uint8, {16, false}: types.Uint16, {32, false}: types.Uint32, {64, false}: types.Uint64}
+
+// inferInt: the integer type of an expression whose type go/types could not determine because a
+// subexpression calls into an imported package: Go's arithmetic operators require identical operand
+// types, so the type of one operand is the type of the other and of the result.
+func (t *funcTr) inferInt(e ast.Expr) (intTy, bool) {
+	if it, ok := intTypeOf(t.typeOf(e)); ok {
+		return it, true
+	}
+	switch x := e.(type) {
+	case *ast.ParenExpr:
+		return t.inferInt(x.X)
+	case *ast.BinaryExpr:
+		switch x.Op {
+		case token.SHL, token.SHR:
+			return t.inferInt(x.X)
+		case token.ADD, token.SUB, token.MUL, token.QUO, token.REM, token.AND, token.OR, token.XOR, token.AND_NOT:
+			if it, ok := t.inferInt(x.X); ok {
+				return it, true
+			}
+			return t.inferInt(x.Y)
+		}
+	case *ast.CallExpr:
+		if ftv := t.info.Types[x.Fun]; ftv.IsType() {
+			return intTypeOf(ftv.Type)
+		}
+	}
+	return intTy{}, false
+}
+
+// force records the inferred type of the untyped identifiers of an arithmetic expression.
+func (t *funcTr) force(e ast.Expr, it intTy) {
+	switch x := e.(type) {
+	case *ast.ParenExpr:
+		t.force(x.X, it)
+	case *ast.Ident:
+		if _, known := intTypeOf(t.typeOf(x)); !known {
+			if o := t.obj(x); o != nil {
+				t.forced[o] = types.Typ[basicOf[it]]
+			}
+		}
+	case *ast.BinaryExpr:
+		switch x.Op {
+		case token.SHL, token.SHR:
+			t.force(x.X, it)
+		case token.ADD, token.SUB, token.MUL, token.QUO, token.REM, token.AND, token.OR, token.XOR, token.AND_NOT:
+			t.force(x.X, it)
+			t.force(x.Y, it)
+		}
+	}
 }
 
 func (t *funcTr) obj(id *ast.Ident) types.Object {
@@ -135,35 +377,67 @@ func (t *funcTr) obj(id *ast.Ident) types.Object {
 	return t.info.Defs[id]
 }
 
+func (t *funcTr) note(name string, ty gty) {
+	if old, ok := t.tyOf[name]; ok && old.lean() != ty.lean() {
+		fail(fmt.Sprintf("%s: the name %s is used for values of two different types", t.what, name))
+	}
+	t.tyOf[name] = ty
+	t.used[name] = true
+}
+
 // param registers (or finds) the parameter that stands for a free identifier or field selection.
-func (t *funcTr) param(e ast.Expr, name, key string, isList bool, decl int) string {
+func (t *funcTr) param(e ast.Expr, name, key string, ty gty, decl int) string {
 	name = leanName(name)
 	for _, p := range t.params {
 		if p.key == key {
+			t.note(p.name, p.ty)
 			return p.name
 		}
 		if p.name == name {
 			t.fail(e, "two different free variables are both called "+name)
 		}
 	}
-	t.params = append(t.params, leanParam{name, key, isList, decl})
+	if ty.k == kSlice && t.nilCmp[key] {
+		ty.nilable = true
+	}
+	t.params = append(t.params, leanParam{name, key, ty, decl})
+	t.note(name, ty)
 	return name
 }
 
-// ref translates an identifier or a chain of field selections (the value must be an integer or a
-// byte sequence): a let-bound local by its name, anything else as a parameter.
-func (t *funcTr) ref(e ast.Expr, wantList bool) string {
-	typ := t.typeOf(e)
-	if wantList {
-		if !isByteSeq(typ) {
-			t.fail(e, "not a []byte / string")
+// varKey identifies an identifier or a chain of field selections rooted at a variable.
+func (t *funcTr) varKey(e ast.Expr) (string, bool) {
+	switch x := e.(type) {
+	case *ast.ParenExpr:
+		return t.varKey(x.X)
+	case *ast.Ident:
+		if v, ok := t.obj(x).(*types.Var); ok {
+			return fmt.Sprintf("var:%p", v), true
 		}
-	} else if _, ok := intTypeOf(typ); !ok {
-		t.fail(e, "not an integer")
+	case *ast.SelectorExpr:
+		return "sel:" + src(x), true
+	}
+	return "", false
+}
+
+// ref translates an identifier or a chain of field selections: a let-bound local (or threaded
+// field) by its name, anything else as a parameter.  Returns the term and its type.
+func (t *funcTr) ref(e ast.Expr) (string, gty) {
+	if id, isId := e.(*ast.Ident); isId && t.bound[t.obj(id)] {
+		// a local: its type was fixed when it was bound (go/types may not know it)
+		if ty, known := t.tyOf[leanName(id.Name)]; known {
+			t.note(leanName(id.Name), ty)
+			return leanName(id.Name), ty
+		}
+	}
+	typ := t.typeOf(e)
+	ty, ok := goKind(typ)
+	if !ok {
+		t.fail(e, "value of an unsupported type")
 	}
 	switch x := e.(type) {
 	case *ast.ParenExpr:
-		return t.ref(x.X, wantList)
+		return t.ref(x.X)
 	case *ast.Ident:
 		o := t.obj(x)
 		v, ok := o.(*types.Var)
@@ -171,16 +445,27 @@ func (t *funcTr) ref(e ast.Expr, wantList bool) string {
 			t.fail(e, "identifier is not a variable")
 		}
 		if t.bound[o] {
-			return leanName(x.Name)
+			n := leanName(x.Name)
+			if old, ok := t.tyOf[n]; ok {
+				ty = old
+			}
+			t.note(n, ty)
+			return n, ty
 		}
 		decl := -1
 		if d, ok := t.declAt[o]; ok {
-			decl = d
+			decl = d * 1000
 		}
-		return t.param(e, x.Name, fmt.Sprintf("var:%p", v), wantList, decl)
+		n := t.param(e, x.Name, fmt.Sprintf("var:%p", v), ty, decl)
+		return n, t.tyOf[n]
 	case *ast.SelectorExpr:
+		if n, ok := t.fields[src(x)]; ok {
+			t.note(n, t.tyOf[n])
+			return n, t.tyOf[n]
+		}
 		// every link must be a field selection rooted at a variable
 		var cur ast.Expr = x
+		depth := 0
 		for {
 			s, ok := cur.(*ast.SelectorExpr)
 			if !ok {
@@ -190,35 +475,220 @@ func (t *funcTr) ref(e ast.Expr, wantList bool) string {
 				t.fail(e, "not a field selection")
 			}
 			cur = s.X
+			depth++
 		}
 		root, ok := cur.(*ast.Ident)
 		if !ok {
 			t.fail(e, "field selection is not rooted at a variable")
 		}
-		if _, ok := t.obj(root).(*types.Var); !ok {
+		ro := t.obj(root)
+		if _, ok := ro.(*types.Var); !ok {
 			t.fail(e, "field selection is not rooted at a variable")
 		}
-		if t.bound[t.obj(root)] {
+		if t.bound[ro] {
 			t.fail(e, "field of a local variable")
 		}
-		return t.param(e, x.Sel.Name, "sel:"+src(x), wantList, -1)
+		decl := -1
+		if d, ok := t.declAt[ro]; ok && depth == 1 && t.mutated[ro] {
+			decl = d*1000 + 1 + fieldIndex(ro.Type(), x.Sel.Name)
+		}
+		n := t.param(e, x.Sel.Name, "sel:"+src(x), ty, decl)
+		return n, t.tyOf[n]
 	}
 	t.fail(e, "unsupported operand")
-	return ""
+	return "", ty
+}
+
+func fieldIndex(t types.Type, name string) int {
+	if p, ok := t.Underlying().(*types.Pointer); ok {
+		t = p.Elem()
+	}
+	if s, ok := t.Underlying().(*types.Struct); ok {
+		for i := 0; i < s.NumFields(); i++ {
+			if s.Field(i).Name() == name {
+				return i
+			}
+		}
+	}
+	return 0
 }
 
 func pattern(v constant.Value, w int) string {
-	i, ok := constant.Val(constant.ToInt(v)).(*big.Int)
-	if !ok {
-		if i64, ok2 := constant.Val(constant.ToInt(v)).(int64); ok2 {
-			i = big.NewInt(i64)
-		} else {
-			return ""
-		}
+	var i *big.Int
+	switch x := constant.Val(constant.ToInt(v)).(type) {
+	case *big.Int:
+		i = x
+	case int64:
+		i = big.NewInt(x)
+	default:
+		return ""
 	}
 	m := new(big.Int).Lsh(big.NewInt(1), uint(w))
-	r := new(big.Int).Mod(i, m) // Mod is Euclidean: the two's complement pattern
-	return r.String()
+	return new(big.Int).Mod(i, m).String() // Mod is Euclidean: the two's complement pattern
+}
+
+// ---- expressions ------------------------------------------------------------------
+
+// seq makes a (possibly nil-able) slice term a plain list.
+func seq(s string, ty gty) string {
+	if ty.nilable {
+		return "(" + s + ".getD [])"
+	}
+	return s
+}
+
+// val translates an expression of any supported type.
+func (t *funcTr) val(e ast.Expr) (string, gty) {
+	if p, ok := e.(*ast.ParenExpr); ok {
+		return t.val(p.X)
+	}
+	// forms whose types go/types cannot know (imported packages are opaque to the extractor)
+	if ix, ok := e.(*ast.IndexExpr); ok && src(ix.X) == "bitmap.Mask" {
+		k, _ := t.expr(ix.Index)
+		return fmt.Sprintf("(Go.mask64 %s)", k), gty{k: kInt, it: intTy{64, false}}
+	}
+	if c, ok := e.(*ast.CallExpr); ok {
+		switch src(c.Fun) {
+		case "bits.OnesCount64":
+			if len(c.Args) != 1 {
+				t.fail(e, "bits.OnesCount64")
+			}
+			a, aty := t.expr(c.Args[0])
+			if aty != (intTy{64, false}) {
+				t.fail(e, "bits.OnesCount64 of something that is not a uint64")
+			}
+			return fmt.Sprintf("(Go.popcount64 %s)", a), gty{k: kInt, it: intTy{64, true}}
+		case "len":
+			if len(c.Args) != 1 {
+				t.fail(e, "len")
+			}
+			a, aty := t.val(c.Args[0])
+			if aty.k != kBytes && aty.k != kSlice {
+				t.fail(e, "len of something that is not a slice or string")
+			}
+			return fmt.Sprintf("(%s.length)", seq(a, aty)), gty{k: kInt, it: intTy{64, true}}
+		case "make":
+			if len(c.Args) != 2 {
+				t.fail(e, "make with a capacity")
+			}
+			ty, ok := goKind(t.info.Types[c.Args[0]].Type)
+			if !ok || (ty.k != kSlice && ty.k != kBytes) {
+				t.fail(e, "make of an unsupported type")
+			}
+			n, _ := t.expr(c.Args[1])
+			z := "0"
+			if ty.k == kSlice {
+				z = ty.elem.zero()
+			}
+			return fmt.Sprintf("(List.replicate %s %s)", n, z), ty
+		case "append":
+			if len(c.Args) != 2 || c.Ellipsis.IsValid() {
+				t.fail(e, "append (only append(s, e))")
+			}
+			s, sty := t.val(c.Args[0])
+			if sty.k != kSlice && sty.k != kBytes {
+				t.fail(e, "append to something that is not a slice")
+			}
+			x, _ := t.val(c.Args[1])
+			sty2 := sty
+			sty2.nilable = false
+			return fmt.Sprintf("(%s ++ [%s])", seq(s, sty), x), sty2
+		case "Bool":
+			// trie.Bool(v) returns &v
+			bd := funcDecl(t.files, "", "Bool")
+			if src(bd.Body) != "{ return &v }" || len(c.Args) != 1 {
+				t.fail(e, "Bool(…) is not `return &v`")
+			}
+			a := t.bexpr(c.Args[0])
+			return fmt.Sprintf("(some %s)", a), gty{k: kOptBool}
+		}
+		if ftv := t.info.Types[c.Fun]; ftv.IsType() && len(c.Args) == 1 {
+			if _, ok := intTypeOf(ftv.Type); ok {
+				s, it := t.expr(e)
+				return s, gty{k: kInt, it: it}
+			}
+			if isByteSeq(ftv.Type) {
+				// []byte(s) / string(b): the same bytes
+				a, aty := t.val(c.Args[0])
+				if aty.k != kBytes {
+					t.fail(e, "conversion to a byte sequence")
+				}
+				return a, aty
+			}
+		}
+		t.fail(e, "call")
+	}
+	// boolean forms (their type may be unknown to go/types when an operand is an imported call)
+	switch x := e.(type) {
+	case *ast.BinaryExpr:
+		switch x.Op {
+		case token.EQL, token.NEQ, token.LSS, token.LEQ, token.GTR, token.GEQ, token.LAND, token.LOR:
+			return t.bexpr(e), gty{k: kBool}
+		}
+	case *ast.UnaryExpr:
+		if x.Op == token.NOT {
+			return t.bexpr(e), gty{k: kBool}
+		}
+	}
+	typ := t.typeOf(e)
+	ty, ok := goKind(typ)
+	if !ok {
+		if it, isInt := t.inferInt(e); isInt {
+			ty, ok = gty{k: kInt, it: it}, true
+		}
+	}
+	if !ok {
+		t.fail(e, "value of an unsupported type")
+	}
+	switch ty.k {
+	case kInt:
+		s, it := t.expr(e)
+		return s, gty{k: kInt, it: it}
+	case kBool:
+		return t.bexpr(e), ty
+	}
+	switch x := e.(type) {
+	case *ast.Ident:
+		if x.Name == "nil" {
+			t.fail(e, "nil")
+		}
+		return t.ref(e)
+	case *ast.SelectorExpr:
+		if s, g, ok := t.structField(x); ok {
+			return s, g
+		}
+		return t.ref(e)
+	case *ast.IndexExpr:
+		s, sty := t.val(x.X)
+		if sty.k != kSlice {
+			t.fail(e, "indexing")
+		}
+		i, _ := t.expr(x.Index)
+		return fmt.Sprintf("(%s.getD (%s) %s)", seq(s, sty), i, sty.elem.zero()), *sty.elem
+	case *ast.CompositeLit:
+		if len(x.Elts) == 0 && (ty.k == kBytes || ty.k == kSlice) {
+			return "[]", ty
+		}
+	}
+	t.fail(e, "unsupported expression")
+	return "", ty
+}
+
+// structField: x.f where x is a struct VALUE (a local, or an element of a slice of structs)
+func (t *funcTr) structField(x *ast.SelectorExpr) (string, gty, bool) {
+	g, ok := goKind(t.typeOf(x.X))
+	if !ok || g.k != kStruct {
+		return "", gty{}, false
+	}
+	if id, isId := x.X.(*ast.Ident); isId && !t.bound[t.obj(id)] {
+		return "", gty{}, false // a struct-valued parameter: its fields are parameters (ref)
+	}
+	s, sg := t.val(x.X)
+	p, fg, ok := sg.proj(s, x.Sel.Name)
+	if !ok {
+		t.fail(x, "field")
+	}
+	return p, fg, true
 }
 
 // expr translates an integer expression to a Lean term of type Nat (the bit pattern).
@@ -228,8 +698,14 @@ func (t *funcTr) expr(e ast.Expr) (string, intTy) {
 	}
 	tv := t.info.Types[e]
 	ty, isInt := intTypeOf(tv.Type)
+	if !isInt && tv.Value == nil {
+		if it, ok := t.inferInt(e); ok {
+			t.force(e, it)
+			ty, isInt = it, true
+		}
+	}
 	if tv.Value != nil {
-		if !isInt || (tv.Value.Kind() != constant.Int && constant.ToInt(tv.Value).Kind() != constant.Int) {
+		if !isInt || constant.ToInt(tv.Value).Kind() != constant.Int {
 			t.fail(e, "constant is not of a sized integer type")
 		}
 		s := pattern(tv.Value, ty.w)
@@ -238,24 +714,54 @@ func (t *funcTr) expr(e ast.Expr) (string, intTy) {
 		}
 		return s, ty
 	}
-	if !isInt {
-		t.fail(e, "not an integer expression")
+	if sel, ok := e.(*ast.SelectorExpr); ok {
+		if s, g, ok := t.structField(sel); ok {
+			if g.k != kInt {
+				t.fail(e, "not an integer")
+			}
+			return s, g.it
+		}
 	}
 	switch x := e.(type) {
 	case *ast.Ident, *ast.SelectorExpr:
-		return t.ref(e, false), ty
+		s, g := t.ref(e)
+		if g.k != kInt {
+			t.fail(e, "not an integer")
+		}
+		return s, g.it
 	case *ast.IndexExpr:
-		seq := t.ref(x.X, true)
+		if src(x.X) == "bitmap.Mask" {
+			s, g := t.val(e)
+			return s, g.it
+		}
+		s, sty := t.val(x.X)
 		idx, _ := t.expr(x.Index)
-		return fmt.Sprintf("(%s.getD (%s) 0)", seq, idx), ty
+		switch {
+		case sty.k == kBytes:
+			return fmt.Sprintf("(%s.getD (%s) 0)", seq(s, sty), idx), intTy{8, false}
+		case sty.k == kSlice && sty.elem.k == kInt:
+			return fmt.Sprintf("(%s.getD (%s) 0)", seq(s, sty), idx), sty.elem.it
+		}
+		t.fail(e, "indexing of something that is not a slice of integers")
 	case *ast.CallExpr:
 		ftv := t.info.Types[x.Fun]
-		if !ftv.IsType() || len(x.Args) != 1 {
-			t.fail(e, "call (only conversions between integer types are supported)")
+		if ftv.IsType() && len(x.Args) == 1 {
+			to, ok := intTypeOf(ftv.Type)
+			if !ok {
+				t.fail(e, "conversion to a non-integer type")
+			}
+			a, aty := t.expr(x.Args[0])
+			return fmt.Sprintf("(Go.conv %d %v %d %s)", aty.w, aty.signed, to.w, a), to
 		}
-		a, aty := t.expr(x.Args[0])
-		return fmt.Sprintf("(Go.conv %d %v %d %s)", aty.w, aty.signed, ty.w, a), ty
+		s, g := t.val(e)
+		if g.k != kInt {
+			t.fail(e, "not an integer")
+		}
+		return s, g.it
 	case *ast.UnaryExpr:
+		if !isInt {
+			t.fail(e, "not an integer expression")
+		}
 		a, _ := t.expr(x.X)
 		switch x.Op {
 		case token.ADD:
@@ -267,13 +773,16 @@ func (t *funcTr) expr(e ast.Expr) (string, intTy) {
 		}
 		t.fail(e, "unary operator")
 	case *ast.BinaryExpr:
+		if !isInt {
+			t.fail(e, "not an integer expression")
+		}
 		return t.binary(e, x.Op, x.X, x.Y, ty), ty
 	}
-	t.fail(e, "unsupported expression")
+	t.fail(e, "unsupported integer expression")
 	return "", ty
 }
 
-// shiftCount: the count of a shift; an untyped / any-typed non-negative constant is its value.
+// shiftCount: the count of a shift; a non-negative constant is its value.
 func (t *funcTr) shiftCount(e ast.Expr) string {
 	tv := t.info.Types[e]
 	if tv.Value != nil {
@@ -335,22 +844,92 @@ func (t *funcTr) binary(at ast.Expr, op token.Token, l, r ast.Expr, ty intTy) st
 	return ""
 }
 
-// cond translates a condition to a Lean term of type Bool.
-func (t *funcTr) cond(e ast.Expr) string {
+func isNil(e ast.Expr) bool {
+	id, ok := e.(*ast.Ident)
+	return ok && id.Name == "nil"
+}
+
+// bexpr translates a boolean expression to a Lean term of type Bool.
+func (t *funcTr) bexpr(e ast.Expr) string {
+	if tv := t.info.Types[e]; tv.Value != nil && tv.Value.Kind() == constant.Bool {
+		if constant.BoolVal(tv.Value) {
+			return "true"
+		}
+		return "false"
+	}
 	switch x := e.(type) {
 	case *ast.ParenExpr:
-		return t.cond(x.X)
+		return t.bexpr(x.X)
+	case *ast.Ident, *ast.SelectorExpr:
+		s, g := t.ref(e)
+		if g.k != kBool {
+			t.fail(e, "not a bool")
+		}
+		return s
+	case *ast.StarExpr:
+		s, g := t.val(x.X)
+		if g.k != kOptBool {
+			t.fail(e, "dereference of something that is not a *bool")
+		}
+		return fmt.Sprintf("(%s.getD false)", s)
+	case *ast.IndexExpr:
+		s, g := t.val(e)
+		if g.k != kBool {
+			t.fail(e, "not a bool")
+		}
+		return s
 	case *ast.UnaryExpr:
 		if x.Op == token.NOT {
-			return "(!" + t.cond(x.X) + ")"
+			return "(!" + t.bexpr(x.X) + ")"
 		}
 	case *ast.BinaryExpr:
 		switch x.Op {
 		case token.LAND:
-			return "(" + t.cond(x.X) + " && " + t.cond(x.Y) + ")"
+			return "(" + t.bexpr(x.X) + " && " + t.bexpr(x.Y) + ")"
 		case token.LOR:
-			return "(" + t.cond(x.X) + " || " + t.cond(x.Y) + ")"
+			return "(" + t.bexpr(x.X) + " || " + t.bexpr(x.Y) + ")"
 		case token.EQL, token.NEQ, token.LSS, token.LEQ, token.GTR, token.GEQ:
+			eq := x.Op == token.EQL
+			if x.Op == token.EQL || x.Op == token.NEQ {
+				// comparison with nil
+				if isNil(x.Y) || isNil(x.X) {
+					o := x.X
+					if isNil(x.X) {
+						o = x.Y
+					}
+					s, g := t.val(o)
+					if g.k != kOptBool && !g.nilable {
+						t.fail(e, "comparison with nil of something that cannot be nil here")
+					}
+					if eq {
+						return fmt.Sprintf("(%s.isNone)", s)
+					}
+					return fmt.Sprintf("(%s.isSome)", s)
+				}
+				// bytes.Compare(a, b) ==/!= 0
+				if c, ok := x.X.(*ast.CallExpr); ok && src(c.Fun) == "bytes.Compare" && len(c.Args) == 2 {
+					if bl, ok := x.Y.(*ast.BasicLit); !ok || bl.Value != "0" {
+						t.fail(e, "bytes.Compare may only be compared with 0")
+					}
+					a, aty := t.val(c.Args[0])
+					b, bty := t.val(c.Args[1])
+					if aty.k != kBytes || bty.k != kBytes {
+						t.fail(e, "bytes.Compare of something that is not a byte sequence")
+					}
+					if eq {
+						return fmt.Sprintf("(%s == %s)", a, b)
+					}
+					return fmt.Sprintf("(%s != %s)", a, b)
+				}
+				// bools
+				if isBool(t.typeOf(x.X)) {
+					a, b := t.bexpr(x.X), t.bexpr(x.Y)
+					if eq {
+						return fmt.Sprintf("(%s == %s)", a, b)
+					}
+					return fmt.Sprintf("(%s != %s)", a, b)
+				}
+			}
 			a, aty := t.expr(x.X)
 			b, bty := t.expr(x.Y)
 			if aty != bty {
@@ -388,7 +967,7 @@ func (t *funcTr) cond(e ast.Expr) string {
 	return ""
 }
 
-// ---- statements ------------------------------------------------------------
+// ---- statements ----------------------------------------------------------------------
 
 func hasReturn(n ast.Node) bool {
 	found := false
@@ -401,27 +980,59 @@ func hasReturn(n ast.Node) bool {
 	return found
 }
 
-// assignedOuter lists (by name, sorted) the currently bound variables that the statements assign.
+// lhsName: the lean name of an assignable place that is currently a variable, or "".
+func (t *funcTr) lhsName(e ast.Expr) string {
+	switch x := e.(type) {
+	case *ast.Ident:
+		if o := t.obj(x); o != nil && t.bound[o] {
+			return leanName(x.Name)
+		}
+	case *ast.SelectorExpr:
+		if n, ok := t.fields[src(x)]; ok {
+			return n
+		}
+		if t.isParamField(x) {
+			return leanName(x.Sel.Name)
+		}
+	case *ast.IndexExpr:
+		return t.lhsName(x.X)
+	}
+	return ""
+}
+
+// isParamField: p.f where p is a declared pointer-to-struct parameter
+func (t *funcTr) isParamField(x *ast.SelectorExpr) bool {
+	root, ok := x.X.(*ast.Ident)
+	if !ok {
+		return false
+	}
+	o := t.obj(root)
+	if _, isDecl := t.declAt[o]; !isDecl || o == nil {
+		return false
+	}
+	_, isPtr := o.Type().Underlying().(*types.Pointer)
+	fv, isField := t.info.Uses[x.Sel].(*types.Var)
+	return isPtr && isField && fv.IsField()
+}
+
+// assignedOuter lists (by name, sorted) the current variables that the statements assign.
 func (t *funcTr) assignedOuter(stmts []ast.Stmt) []string {
 	set := map[string]bool{}
-	note := func(e ast.Expr) {
-		if id, ok := e.(*ast.Ident); ok {
-			if o := t.obj(id); o != nil && t.bound[o] {
-				set[leanName(id.Name)] = true
-			}
-		}
-	}
 	for _, s := range stmts {
 		ast.Inspect(s, func(x ast.Node) bool {
 			switch a := x.(type) {
 			case *ast.AssignStmt:
 				if a.Tok != token.DEFINE {
 					for _, l := range a.Lhs {
-						note(l)
+						if n := t.lhsName(l); n != "" {
+							set[n] = true
+						}
 					}
 				}
 			case *ast.IncDecStmt:
-				note(a.X)
+				if n := t.lhsName(a.X); n != "" {
+					set[n] = true
+				}
 			}
 			return true
 		})
@@ -432,6 +1043,14 @@ func (t *funcTr) assignedOuter(stmts []ast.Stmt) []string {
 	}
 	sort.Strings(out)
 	return out
+}
+
+func callOf(a *ast.AssignStmt) (*ast.CallExpr, bool) {
+	if len(a.Rhs) != 1 {
+		return nil, false
+	}
+	c, ok := a.Rhs[0].(*ast.CallExpr)
+	return c, ok
 }
 
 func tuple(names []string) string {
@@ -448,6 +1067,83 @@ var assignOps = map[token.Token]token.Token{
 	token.SHR_ASSIGN: token.SHR, token.AND_NOT_ASSIGN: token.AND_NOT,
 }
 
+func (t *funcTr) saveBound() map[types.Object]bool {
+	saved := map[types.Object]bool{}
+	for k, v := range t.bound {
+		saved[k] = v
+	}
+	return saved
+}
+
+func mentions(n ast.Node, info *types.Info, o types.Object) bool {
+	found := false
+	ast.Inspect(n, func(x ast.Node) bool {
+		if id, ok := x.(*ast.Ident); ok && (info.Uses[id] == o || info.Defs[id] == o) {
+			found = true
+		}
+		return !found
+	})
+	return found
+}
+
+// loop translates `for init; cond; post { body }` of the supported shape; returns the state tuple
+// and the call of the generated auxiliary definition.
+func (t *funcTr) loop(x *ast.ForStmt, ret func(*ast.ReturnStmt) string) (string, string, *ast.Ident) {
+	// shape
+	init, ok := x.Init.(*ast.AssignStmt)
+	if !ok || init.Tok != token.DEFINE || len(init.Lhs) != 1 || len(init.Rhs) != 1 {
+		t.fail(x, "for loop: init must be `i := c`")
+	}
+	ctr, ok := init.Lhs[0].(*ast.Ident)
+	if !ok {
+		t.fail(x, "for loop: counter")
+	}
+	iv := t.info.Types[init.Rhs[0]].Value
+	if iv == nil || constant.ToInt(iv).Kind() != constant.Int || constant.Sign(constant.ToInt(iv)) < 0 {
+		t.fail(x, "for loop: the counter must start at a non-negative constant")
+	}
+	cty, ok := intTypeOf(t.typeOf(ctr))
+	if !ok {
+		t.fail(x, "for loop: the counter must be an integer")
+	}
+	post, ok := x.Post.(*ast.IncDecStmt)
+	if !ok || post.Tok != token.INC || src(post.X) != ctr.Name {
+		t.fail(x, "for loop: post must be `i++`")
+	}
+	cond, ok := x.Cond.(*ast.BinaryExpr)
+	if !ok || (cond.Op != token.LSS && cond.Op != token.LEQ) || src(cond.X) != ctr.Name {
+		t.fail(x, "for loop: condition must be `i < E` or `i <= E`")
+	}
+	bad := false
+	ast.Inspect(x.Body, func(n ast.Node) bool {
+		switch n.(type) {
+		case *ast.ReturnStmt, *ast.BranchStmt, *ast.GoStmt, *ast.DeferStmt:
+			bad = true
+		}
+		return true
+	})
+	if bad {
+		t.fail(x, "for loop: return / break / continue in the body")
+	}
+	co := t.info.Defs[ctr]
+	if assigns(x.Body, co, t.info) {
+		t.fail(x, "for loop: the body assigns the counter")
+	}
+	// the body must not assign a variable of the bound E
+	ast.Inspect(cond.Y, func(n ast.Node) bool {
+		if id, ok := n.(*ast.Ident); ok {
+			if o := t.obj(id); o != nil {
+				if _, isVar := o.(*types.Var); isVar && assigns(x.Body, o, t.info) {
+					t.fail(x, "for loop: the body assigns a variable of the bound")
+				}
+			}
+		}
+		return true
+	})
+	_ = cty
+	return "", "", ctr
+}
+
 // block translates a statement list.  `cont` is the Lean term that is the value of the block when
 // control falls off its end ("" : falling off the end is an error); `ret` translates a return.
 func (t *funcTr) block(stmts []ast.Stmt, cont string, ret func(*ast.ReturnStmt) string, ind string) string {
@@ -461,10 +1157,12 @@ func (t *funcTr) block(stmts []ast.Stmt, cont string, ret func(*ast.ReturnStmt) 
 	letIn := func(name, val string) string {
 		return fmt.Sprintf("let %s := %s;\n%s%s", name, val, ind, t.block(rest, cont, ret, ind))
 	}
-	localInt := func(id *ast.Ident) {
-		if _, ok := intTypeOf(t.typeOf(id)); !ok {
-			t.fail(id, "local variable is not an integer")
-		}
+	bindLocal := func(id *ast.Ident, ty gty) string {
+		n := leanName(id.Name)
+		t.bound[t.obj(id)] = true
+		delete(t.tyOf, n) // a new variable may reuse the name of one that went out of scope
+		t.note(n, ty)
+		return n
 	}
 	switch x := s.(type) {
 	case *ast.EmptyStmt:
@@ -473,6 +1171,11 @@ func (t *funcTr) block(stmts []ast.Stmt, cont string, ret func(*ast.ReturnStmt) 
 		return ret(x)
 	case *ast.BlockStmt:
 		return t.block(append(append([]ast.Stmt{}, x.List...), rest...), cont, ret, ind)
+	case *ast.ExprStmt:
+		if c, ok := x.X.(*ast.CallExpr); ok && strings.HasPrefix(src(c.Fun), "must.Be.") {
+			return t.block(rest, cont, ret, ind) // a debug assertion: no effect
+		}
+		t.fail(s, "expression statement")
 	case *ast.DeclStmt:
 		gd, ok := x.Decl.(*ast.GenDecl)
 		if !ok || gd.Tok != token.VAR || len(gd.Specs) != 1 {
@@ -482,67 +1185,228 @@ func (t *funcTr) block(stmts []ast.Stmt, cont string, ret func(*ast.ReturnStmt) 
 		if len(vs.Names) != 1 || len(vs.Values) > 1 {
 			t.fail(s, "declaration")
 		}
-		localInt(vs.Names[0])
-		val := "0"
-		if len(vs.Values) == 1 {
-			val, _ = t.expr(vs.Values[0])
+		ty, ok := goKind(t.typeOf(vs.Names[0]))
+		if !ok {
+			t.fail(s, "local variable of an unsupported type")
 		}
-		t.bound[t.obj(vs.Names[0])] = true
-		return letIn(leanName(vs.Names[0].Name), val)
+		val := ty.zero()
+		if len(vs.Values) == 1 {
+			val, _ = t.val(vs.Values[0])
+		}
+		return letIn(bindLocal(vs.Names[0], ty), val)
 	case *ast.IncDecStmt:
+		if ix, isIx := x.X.(*ast.IndexExpr); isIx { // s[i]++ on a local slice of integers
+			id, ok := ix.X.(*ast.Ident)
+			if !ok || !t.bound[t.obj(id)] {
+				t.fail(s, "++/-- of an element of something that is not a local slice")
+			}
+			sl, sty := t.ref(id)
+			if sty.k != kSlice || sty.elem.k != kInt {
+				t.fail(s, "++/-- of an element of something that is not a slice of integers")
+			}
+			i, _ := t.expr(ix.Index)
+			op := "add"
+			if x.Tok == token.DEC {
+				op = "sub"
+			}
+			return letIn(sl, fmt.Sprintf("(%s.set (%s) (Go.%s %d (%s.getD (%s) 0) 1))", sl, i, op, sty.elem.it.w, sl, i))
+		}
 		id, ok := x.X.(*ast.Ident)
 		if !ok || !t.bound[t.obj(id)] {
 			t.fail(s, "++/-- of something that is not a local variable")
 		}
-		ty, _ := intTypeOf(t.typeOf(id))
+		ty, ok := intTypeOf(t.typeOf(id))
+		if !ok {
+			t.fail(s, "++/-- of something that is not an integer")
+		}
 		op := "add"
 		if x.Tok == token.DEC {
 			op = "sub"
 		}
-		return letIn(leanName(id.Name), fmt.Sprintf("(Go.%s %d %s 1)", op, ty.w, leanName(id.Name)))
+		n := leanName(id.Name)
+		t.note(n, t.tyOf[n])
+		return letIn(n, fmt.Sprintf("(Go.%s %d %s 1)", op, ty.w, n))
 	case *ast.AssignStmt:
+		if c, isCall := callOf(x); isCall && len(x.Lhs) > 1 {
+			// a, b := f(…) for a translated function f
+			ce, ok := translated[src(c.Fun)]
+			if !ok || len(x.Lhs) != len(ce.results) || len(c.Args) != ce.nparams ||
+				(x.Tok != token.DEFINE && x.Tok != token.ASSIGN) {
+				t.fail(s, "multiple assignment (only from a call of a translated function)")
+			}
+			var args, names []string
+			for _, a := range c.Args {
+				v, _ := t.val(a)
+				args = append(args, v)
+			}
+			for i, l := range x.Lhs {
+				id, ok := l.(*ast.Ident)
+				if !ok {
+					t.fail(s, "multiple assignment to something that is not a variable")
+				}
+				if t.bound[t.obj(id)] {
+					n := leanName(id.Name)
+					t.note(n, t.tyOf[n])
+					names = append(names, n)
+				} else if x.Tok == token.DEFINE {
+					names = append(names, bindLocal(id, ce.results[i]))
+				} else {
+					t.fail(s, "assignment to a variable that is not a local of the translated fragment")
+				}
+			}
+			return letIn(tuple(names), fmt.Sprintf("%s %s", ce.lean, strings.Join(args, " ")))
+		}
 		if len(x.Lhs) != 1 || len(x.Rhs) != 1 {
 			t.fail(s, "multiple assignment")
 		}
-		id, ok := x.Lhs[0].(*ast.Ident)
-		if !ok {
-			t.fail(s, "assignment to something that is not a local variable")
-		}
-		localInt(id)
-		var val string
-		switch {
-		case x.Tok == token.DEFINE:
-			val, _ = t.expr(x.Rhs[0])
-			t.bound[t.obj(id)] = true
-		case x.Tok == token.ASSIGN:
-			if !t.bound[t.obj(id)] {
-				t.fail(s, "assignment to a variable that is not a local of the translated fragment")
+		switch l := x.Lhs[0].(type) {
+		case *ast.IndexExpr: // s[i] = e on a local slice
+			if x.Tok != token.ASSIGN {
+				t.fail(s, "assignment operator on a slice element")
 			}
-			val, _ = t.expr(x.Rhs[0])
-		default:
-			op, ok := assignOps[x.Tok]
+			id, ok := l.X.(*ast.Ident)
 			if !ok || !t.bound[t.obj(id)] {
-				t.fail(s, "assignment operator")
+				t.fail(s, "assignment to an element of something that is not a local slice")
 			}
-			ty, _ := intTypeOf(t.typeOf(id))
-			val = t.binary(x.Lhs[0], op, x.Lhs[0], x.Rhs[0], ty)
+			sl, sty := t.ref(id)
+			if sty.k != kSlice && sty.k != kBytes {
+				t.fail(s, "assignment to an element of something that is not a slice")
+			}
+			i, _ := t.expr(l.Index)
+			v, _ := t.val(x.Rhs[0])
+			return letIn(sl, fmt.Sprintf("(%s.set (%s) %s)", sl, i, v))
+		case *ast.SelectorExpr: // p.f = e on a pointer-to-struct parameter
+			if x.Tok != token.ASSIGN || !t.isParamField(l) {
+				t.fail(s, "assignment to a field of something that is not a pointer parameter")
+			}
+			n, _ := t.ref(l) // registers the field as a parameter (its initial value)
+			v, _ := t.val(x.Rhs[0])
+			t.fields[src(l)] = n
+			return letIn(n, v)
+		case *ast.Ident:
+			id := l
+			var val string
+			switch {
+			case x.Tok == token.DEFINE:
+				var ty gty
+				val, ty = t.val(x.Rhs[0])
+				ty.nilable = false
+				return letIn(bindLocal(id, ty), val)
+			case x.Tok == token.ASSIGN:
+				if !t.bound[t.obj(id)] {
+					t.fail(s, "assignment to a variable that is not a local of the translated fragment")
+				}
+				val, _ = t.val(x.Rhs[0])
+			default:
+				op, ok := assignOps[x.Tok]
+				if !ok || !t.bound[t.obj(id)] {
+					t.fail(s, "assignment operator")
+				}
+				ty, ok := intTypeOf(t.typeOf(id))
+				if !ok {
+					t.fail(s, "assignment operator on something that is not an integer")
+				}
+				val = t.binary(x.Lhs[0], op, x.Lhs[0], x.Rhs[0], ty)
+			}
+			n := leanName(id.Name)
+			t.note(n, t.tyOf[n])
+			return letIn(n, val)
 		}
-		return letIn(leanName(id.Name), val)
+		t.fail(s, "assignment to an unsupported place")
+	case *ast.ForStmt:
+		_, _, ctr := t.loop(x, ret) // checks the shape
+		init := x.Init.(*ast.AssignStmt)
+		cond := x.Cond.(*ast.BinaryExpr)
+		// `i := c` first
+		cty, _ := intTypeOf(t.typeOf(ctr))
+		iv, _ := t.expr(init.Rhs[0])
+		cn := bindLocal(ctr, gty{k: kInt, it: cty})
+		// the state: the counter and every current variable the body assigns
+		names := t.assignedOuter(x.Body.List)
+		hasCtr := false
+		for _, n := range names {
+			hasCtr = hasCtr || n == cn
+		}
+		if !hasCtr {
+			names = append(names, cn)
+			sort.Strings(names)
+		}
+		tp := tuple(names)
+		var stys []string
+		for _, n := range names {
+			l := t.tyOf[n].lean()
+			if strings.Contains(l, " ") {
+				l = "(" + l + ")"
+			}
+			stys = append(stys, l)
+		}
+		sty := strings.Join(stys, " × ")
+		t.loopCnt++
+		aux := fmt.Sprintf("%s_loop%d", t.what, t.loopCnt)
+		// translate condition and body, recording what they read
+		outerUsed := t.used
+		t.used = map[string]bool{}
+		saved := t.saveBound()
+		c := t.bexpr(cond)
+		const callMark = "\x00CALL\x00"
+		body := t.block(append(append([]ast.Stmt{}, x.Body.List...), x.Post), callMark, ret, "      ")
+		t.bound = saved
+		inState := map[string]bool{}
+		for _, n := range names {
+			inState[n] = true
+		}
+		var free []string
+		for n := range t.used {
+			if !inState[n] {
+				if _, known := t.tyOf[n]; known {
+					free = append(free, n)
+				}
+			}
+		}
+		sort.Strings(free)
+		// locals of the body are not parameters of the loop: keep only names visible outside
+		var freeOuter []string
+		for _, n := range free {
+			if outerVisible(t, n, saved) {
+				freeOuter = append(freeOuter, n)
+			}
+		}
+		free = freeOuter
+		for n := range t.used {
+			outerUsed[n] = true
+		}
+		t.used = outerUsed
+		var sig strings.Builder
+		for _, n := range free {
+			fmt.Fprintf(&sig, " (%s : %s)", n, t.tyOf[n].lean())
+		}
+		args := ""
+		if len(free) > 0 {
+			args = " " + strings.Join(free, " ")
+		}
+		body = strings.ReplaceAll(body, callMark, fmt.Sprintf("%s%s fuel %s", aux, args, tp))
+		t.aux = append(t.aux, fmt.Sprintf("def %s%s : Nat → %s → %s\n  | 0, st => st\n  | fuel + 1, %s =>\n    if %s then\n      (%s)\n    else %s\n",
+			aux, sig.String(), sty, sty, tp, c, body, tp))
+		// fuel: the bound E (+1 for <=) bounds the number of iterations
+		bound, _ := t.expr(cond.Y)
+		fuel := bound
+		if cond.Op == token.LEQ {
+			fuel = "(" + bound + " + 1)"
+		}
+		return fmt.Sprintf("let %s := %s;\n%slet %s := %s%s %s %s;\n%s%s", cn, iv, ind, tp, aux, args, fuel, tp, ind,
+			t.block(rest, cont, ret, ind))
 	case *ast.IfStmt:
 		if x.Init != nil {
 			t.fail(s, "if with an init statement")
 		}
-		c := t.cond(x.Cond)
+		c := t.bexpr(x.Cond)
 		var els []ast.Stmt
 		if x.Else != nil {
 			els = []ast.Stmt{x.Else}
 		}
 		in2 := ind + "  "
-		// the variables bound so far; locals of a branch go out of scope at its end
-		saved := map[types.Object]bool{}
-		for k, v := range t.bound {
-			saved[k] = v
-		}
+		// locals of a branch go out of scope at its end
+		saved := t.saveBound()
 		restore := func() {
 			t.bound = map[types.Object]bool{}
 			for k, v := range saved {
@@ -560,6 +1424,18 @@ func (t *funcTr) block(stmts []ast.Stmt, cont string, ret func(*ast.ReturnStmt) 
 		if len(names) == 0 {
 			t.fail(s, "if statement without effect")
 		}
+		// fields assigned for the first time inside a branch must exist (as parameters) before it
+		ast.Inspect(x, func(n ast.Node) bool {
+			if a, ok := n.(*ast.AssignStmt); ok && a.Tok == token.ASSIGN {
+				for _, l := range a.Lhs {
+					if sel, ok := l.(*ast.SelectorExpr); ok && t.isParamField(sel) {
+						nm, _ := t.ref(sel)
+						t.fields[src(sel)] = nm
+					}
+				}
+			}
+			return true
+		})
 		tp := tuple(names)
 		thn := t.block(x.Body.List, tp, ret, in2)
 		restore()
@@ -572,7 +1448,27 @@ func (t *funcTr) block(stmts []ast.Stmt, cont string, ret func(*ast.ReturnStmt) 
 	return ""
 }
 
-// ---- definitions -----------------------------------------------------------
+// outerVisible: is the lean name a parameter or a variable bound outside the loop?
+func outerVisible(t *funcTr, name string, outer map[types.Object]bool) bool {
+	for _, p := range t.params {
+		if p.name == name {
+			return true
+		}
+	}
+	for o := range outer {
+		if leanName(o.Name()) == name {
+			return true
+		}
+	}
+	for _, n := range t.fields {
+		if n == name {
+			return true
+		}
+	}
+	return false
+}
+
+// ---- definitions -------------------------------------------------------------------------
 
 func (t *funcTr) signature() string {
 	ps := append([]leanParam{}, t.params...)
@@ -588,17 +1484,15 @@ func (t *funcTr) signature() string {
 	})
 	var sb strings.Builder
 	for _, p := range ps {
-		ty := "Nat"
-		if p.isList {
-			ty = "List Nat"
-		}
-		fmt.Fprintf(&sb, " (%s : %s)", p.name, ty)
+		fmt.Fprintf(&sb, " (%s : %s)", p.name, p.ty.lean())
 	}
 	return sb.String()
 }
 
-func newTr(what string, info *types.Info, fd *ast.FuncDecl) *funcTr {
-	t := &funcTr{what: what, info: info, bound: map[types.Object]bool{}, declAt: map[types.Object]int{}}
+func newTr(what string, info *types.Info, files []*ast.File, fd *ast.FuncDecl) *funcTr {
+	t := &funcTr{what: what, info: info, files: files, fd: fd, bound: map[types.Object]bool{}, declAt: map[types.Object]int{},
+		fields: map[string]string{}, nilCmp: map[string]bool{}, used: map[string]bool{}, tyOf: map[string]gty{},
+		forced: map[types.Object]types.Type{}, mutated: map[types.Object]bool{}}
 	n := 0
 	for _, f := range fd.Type.Params.List {
 		for _, nm := range f.Names {
@@ -608,77 +1502,193 @@ func newTr(what string, info *types.Info, fd *ast.FuncDecl) *funcTr {
 			n++
 		}
 	}
+	ast.Inspect(fd.Body, func(x ast.Node) bool {
+		if a, ok := x.(*ast.AssignStmt); ok {
+			for _, l := range a.Lhs {
+				if sel, ok := l.(*ast.SelectorExpr); ok {
+					if root, ok := sel.X.(*ast.Ident); ok && t.obj(root) != nil {
+						t.mutated[t.obj(root)] = true
+					}
+				}
+			}
+		}
+		return true
+	})
+	// slices compared with nil are Option-valued parameters
+	ast.Inspect(fd.Body, func(x ast.Node) bool {
+		if be, ok := x.(*ast.BinaryExpr); ok && (be.Op == token.EQL || be.Op == token.NEQ) {
+			for _, pair := range [][2]ast.Expr{{be.X, be.Y}, {be.Y, be.X}} {
+				if isNil(pair[1]) {
+					if k, ok := t.varKey(pair[0]); ok {
+						t.nilCmp[k] = true
+					}
+				}
+			}
+		}
+		return true
+	})
 	return t
 }
 
-func retOf(ty intTy, e string) (string, string) {
-	if ty.signed {
-		return "Int", fmt.Sprintf("Go.toS %d %s", ty.w, e)
+// result renders one result value: a signed integer as Int.
+func result(s string, ty gty) (string, string) {
+	if ty.k == kInt && ty.it.signed {
+		return "Int", fmt.Sprintf("(Go.toS %d %s)", ty.it.w, s)
 	}
-	return "Nat", e
+	return ty.lean(), s
 }
 
-// translateFunc translates a whole function with exactly one result.
-func translateFunc(info *types.Info, fd *ast.FuncDecl, leanDef string) string {
-	t := newTr(leanDef, info, fd)
-	if fd.Type.Results == nil || len(fd.Type.Results.List) != 1 || len(fd.Type.Results.List[0].Names) > 1 {
-		fail(leanDef + ": exactly one result expected")
+// translateFunc translates a whole function.
+func translateFunc(info *types.Info, files []*ast.File, fd *ast.FuncDecl, leanDef string) string {
+	return translateFuncP(info, files, fd, leanDef, false)
+}
+
+// translateFuncP: with `pat`, the function is translated as `<leanDef>_pat` with all results as
+// bit patterns (callable from other translated functions) and `<leanDef>` converts the signed ones.
+func translateFuncP(info *types.Info, files []*ast.File, fd *ast.FuncDecl, leanDef string, pat bool) string {
+	t := newTr(leanDef, info, files, fd)
+	var patTys []string
+	var resTys []gty
+	if fd.Type.Results == nil {
+		fail(leanDef + ": a result is expected")
 	}
-	resT := info.Types[fd.Type.Results.List[0].Type].Type
 	retTy := ""
 	ret := func(r *ast.ReturnStmt) string {
-		if len(r.Results) != 1 {
-			t.fail(r, "return of several values")
-		}
-		e := r.Results[0]
-		if ity, ok := intTypeOf(resT); ok {
-			s, ety := t.expr(e)
-			if ety != ity {
-				t.fail(r, "type of the returned expression")
-			}
-			var v string
-			retTy, v = retOf(ity, s)
-			return v
-		}
-		if isByteSeq(resT) {
-			cl, ok := e.(*ast.CompositeLit)
-			if !ok || !isByteSeq(info.Types[cl].Type) {
-				t.fail(r, "only a []byte{…} literal can be returned")
-			}
-			var elts []string
-			for _, el := range cl.Elts {
-				if _, kv := el.(*ast.KeyValueExpr); kv {
-					t.fail(r, "keyed literal")
+		var vals, tys []string
+		for _, e := range r.Results {
+			// returning the pointer-to-struct parameter: the tuple of its fields
+			if id, ok := e.(*ast.Ident); ok {
+				if o := t.obj(id); o != nil {
+					if _, isDecl := t.declAt[o]; isDecl {
+						if p, isPtr := o.Type().Underlying().(*types.Pointer); isPtr {
+							if st, isStruct := p.Elem().Underlying().(*types.Struct); isStruct {
+								for i := 0; i < st.NumFields(); i++ {
+									sel := &ast.SelectorExpr{X: id, Sel: ast.NewIdent(st.Field(i).Name())}
+									t.info.Uses[sel.Sel] = st.Field(i)
+									fty, ok := goKind(st.Field(i).Type())
+									if !ok {
+										t.fail(r, "field of an unsupported type")
+									}
+									t.info.Types[sel] = types.TypeAndValue{Type: st.Field(i).Type()}
+									s, _ := t.ref(sel)
+									ty, v := result(s, fty)
+									vals, tys = append(vals, v), append(tys, ty)
+								}
+								continue
+							}
+						}
+					}
 				}
-				s, ety := t.expr(el)
-				if ety != (intTy{8, false}) {
-					t.fail(r, "element of a []byte literal")
-				}
-				elts = append(elts, s)
 			}
-			retTy = "List Nat"
-			return "[" + strings.Join(elts, ", ") + "]"
+			if cl, ok := e.(*ast.CompositeLit); ok && isByteSeq(info.Types[cl].Type) && len(cl.Elts) > 0 {
+				var elts []string
+				for _, el := range cl.Elts {
+					if _, kv := el.(*ast.KeyValueExpr); kv {
+						t.fail(r, "keyed literal")
+					}
+					s, ety := t.expr(el)
+					if ety != (intTy{8, false}) {
+						t.fail(r, "element of a []byte literal")
+					}
+					elts = append(elts, s)
+				}
+				vals, tys = append(vals, "["+strings.Join(elts, ", ")+"]"), append(tys, "List Nat")
+				continue
+			}
+			s, g := t.val(e)
+			if g.nilable {
+				t.fail(r, "returning a nil-able slice")
+			}
+			ty, v := result(s, g)
+			if pat {
+				ty, v = g.lean(), s
+			}
+			vals, tys = append(vals, v), append(tys, ty)
+			resTys = append(resTys, g)
 		}
-		t.fail(r, "result type")
-		return ""
+		if len(vals) == 0 {
+			t.fail(r, "return without a value")
+		}
+		if pat {
+			patTys = append([]string{}, tys...)
+			resTys = resTys[len(resTys)-len(vals):]
+		}
+		for i, ty := range tys {
+			if strings.Contains(ty, " ") && len(tys) > 1 {
+				tys[i] = "(" + ty + ")"
+			}
+		}
+		retTy = strings.Join(tys, " × ")
+		return tuple(vals)
 	}
-	// integer parameters that the body assigns are re-bound by `let`; declare them first
+	// parameters that the body assigns are re-bound by `let`; declare them first
 	for _, f := range fd.Type.Params.List {
 		for _, nm := range f.Names {
-			if _, ok := intTypeOf(info.Defs[nm].Type()); ok && assigns(fd.Body, info.Defs[nm], info) {
-				t.ref(nm, false)              // becomes a parameter …
+			if _, ok := goKind(info.Defs[nm].Type()); ok && assigns(fd.Body, info.Defs[nm], info) {
+				t.ref(nm)                     // becomes a parameter …
 				t.bound[info.Defs[nm]] = true // … and a local from now on
 			}
 		}
 	}
 	body := t.block(fd.Body.List, "", ret, "  ")
-	return fmt.Sprintf("def %s%s : %s :=\n  %s\n", leanDef, t.signature(), retTy, body)
+	if !pat {
+		return strings.Join(t.aux, "\n") + fmt.Sprintf("%sdef %s%s : %s :=\n  %s\n", sepIf(len(t.aux) > 0), leanDef, t.signature(), retTy, body)
+	}
+	// callable only if the Lean parameters are exactly the Go parameters
+	np := 0
+	for _, f := range fd.Type.Params.List {
+		np += len(f.Names)
+	}
+	ok := len(t.params) == np
+	var argNames []string
+	ps := append([]leanParam{}, t.params...)
+	sort.SliceStable(ps, func(i, j int) bool { return ps[i].decl < ps[j].decl })
+	for i, p := range ps {
+		ok = ok && p.decl == i*1000
+		argNames = append(argNames, p.name)
+	}
+	if !ok {
+		fail(leanDef + ": a function that is called must use exactly its parameters")
+	}
+	translated[fd.Name.Name] = callee{lean: leanDef + "_pat", nparams: np, results: resTys}
+	// the wrapper: signed results as Int
+	var conv, ctys []string
+	for i, g := range resTys {
+		proj := "r"
+		if len(resTys) > 1 {
+			for j := 0; j < i; j++ {
+				proj += ".2"
+			}
+			if i < len(resTys)-1 {
+				proj += ".1"
+			}
+		}
+		ty, v := result(proj, g)
+		if strings.Contains(ty, " ") && len(resTys) > 1 {
+			ty = "(" + ty + ")"
+		}
+		conv, ctys = append(conv, v), append(ctys, ty)
+	}
+	_ = patTys
+	return strings.Join(t.aux, "\n") + fmt.Sprintf("%sdef %s_pat%s : %s :=\n  %s\n\ndef %s%s : %s :=\n  let r := %s_pat %s;\n  %s\n",
+		sepIf(len(t.aux) > 0), leanDef, t.signature(), retTy, body,
+		leanDef, t.signature(), strings.Join(ctys, " × "), leanDef, strings.Join(argNames, " "), tuple(conv))
+}
+
+func sepIf(b bool) string {
+	if b {
+		return "\n"
+	}
+	return ""
 }
 
 func assigns(body ast.Node, o types.Object, info *types.Info) bool {
 	found := false
 	ast.Inspect(body, func(x ast.Node) bool {
 		check := func(e ast.Expr) {
+			if ix, ok := e.(*ast.IndexExpr); ok {
+				e = ix.X
+			}
 			if id, ok := e.(*ast.Ident); ok && (info.Uses[id] == o || info.Defs[id] == o) {
 				found = true
 			}
@@ -696,54 +1706,119 @@ func assigns(body ast.Node, o types.Object, info *types.Info) bool {
 	return found
 }
 
-// translateAssigned translates the right-hand side of the unique statement `name := e` / `name = e`
-// of a function; everything the expression reads becomes a parameter.
-func translateAssigned(info *types.Info, fd *ast.FuncDecl, name, leanDef string) string {
-	t := newTr(leanDef, info, fd)
-	var rhs ast.Expr
+// translateExpr translates one expression of a function; everything it reads becomes a parameter.
+func translateExpr(info *types.Info, files []*ast.File, fd *ast.FuncDecl, e ast.Expr, leanDef string) string {
+	t := newTr(leanDef, info, files, fd)
+	s, g := t.val(e)
+	rt, v := result(s, g)
+	return fmt.Sprintf("def %s%s : %s :=\n  %s\n", leanDef, t.signature(), rt, v)
+}
+
+// assignedTo returns the right-hand sides of the statements `lhs := e` / `lhs = e` of a function, in
+// source order (`lhs` is compared as source text, e.g. "v", "qr.from").
+func assignedTo(fd *ast.FuncDecl, lhs string) []ast.Expr {
+	var out []ast.Expr
 	ast.Inspect(fd.Body, func(x ast.Node) bool {
 		if a, ok := x.(*ast.AssignStmt); ok && len(a.Lhs) == 1 && len(a.Rhs) == 1 &&
-			(a.Tok == token.DEFINE || a.Tok == token.ASSIGN) {
-			if id, ok := a.Lhs[0].(*ast.Ident); ok && id.Name == name {
-				if rhs != nil {
-					fail(leanDef + ": more than one assignment to " + name)
-				}
-				rhs = a.Rhs[0]
-			}
+			(a.Tok == token.DEFINE || a.Tok == token.ASSIGN) && src(a.Lhs[0]) == lhs {
+			out = append(out, a.Rhs[0])
 		}
 		return true
 	})
-	if rhs == nil {
-		fail(leanDef + ": no assignment to " + name)
+	return out
+}
+
+// translateAssigned translates the right-hand side of the unique statement `name := e` / `name = e`.
+func translateAssigned(info *types.Info, files []*ast.File, fd *ast.FuncDecl, name, leanDef string) string {
+	rhs := assignedTo(fd, name)
+	if len(rhs) != 1 {
+		fail(fmt.Sprintf("%s: exactly one assignment to %s expected, found %d", leanDef, name, len(rhs)))
 	}
-	s, ty := t.expr(rhs)
-	rt, v := retOf(ty, s)
-	return fmt.Sprintf("def %s%s : %s :=\n  %s\n", leanDef, t.signature(), rt, v)
+	return translateExpr(info, files, fd, rhs[0], leanDef)
+}
+
+// translateNthAssigned: the n-th (0-based, source order) of exactly `of` assignments to `name`.
+func translateNthAssigned(info *types.Info, files []*ast.File, fd *ast.FuncDecl, name string, n, of int, leanDef string) string {
+	rhs := assignedTo(fd, name)
+	if len(rhs) != of {
+		fail(fmt.Sprintf("%s: %d assignments to %s expected, found %d", leanDef, of, name, len(rhs)))
+	}
+	return translateExpr(info, files, fd, rhs[n], leanDef)
+}
+
+// translateFieldInit translates the value of the keyed element `field: e` of the unique composite
+// literal of a function that has such an element.
+func translateFieldInit(info *types.Info, files []*ast.File, fd *ast.FuncDecl, field, leanDef string) string {
+	var vals []ast.Expr
+	ast.Inspect(fd.Body, func(x ast.Node) bool {
+		if kv, ok := x.(*ast.KeyValueExpr); ok && src(kv.Key) == field {
+			vals = append(vals, kv.Value)
+		}
+		return true
+	})
+	if len(vals) != 1 {
+		fail(fmt.Sprintf("%s: exactly one `%s: …` expected, found %d", leanDef, field, len(vals)))
+	}
+	return translateExpr(info, files, fd, vals[0], leanDef)
+}
+
+// translateFirstResult translates the first result expression of the unique return statement.
+func translateFirstResult(info *types.Info, files []*ast.File, fd *ast.FuncDecl, leanDef string) string {
+	var rets []*ast.ReturnStmt
+	ast.Inspect(fd.Body, func(x ast.Node) bool {
+		if r, ok := x.(*ast.ReturnStmt); ok {
+			rets = append(rets, r)
+		}
+		return true
+	})
+	if len(rets) != 1 || len(rets[0].Results) == 0 {
+		fail(leanDef + ": exactly one return statement expected")
+	}
+	return translateExpr(info, files, fd, rets[0].Results[0], leanDef)
 }
 
 // writeFuncs is called from main: it writes lean/Generated/Funcs.lean.
 func writeFuncs(repo string, trieFiles []*ast.File, info *types.Info, out string) {
 	var b strings.Builder
 	b.WriteString("import Generated.GoSem\n/- GENERATED by harness/cmd/extract (translate.go) from /repo's working tree.  Do not edit.\n")
-	b.WriteString("   Meaning of the `Go.*` operations: lean/Generated/GoSem.lean. -/\nnamespace Generated\n\n")
-	b.WriteString(translateFunc(info, funcDecl(trieFiles, "", "encStep"), "encStep") + "\n")
-	b.WriteString(translateFunc(info, funcDecl(trieFiles, "", "decStep"), "decStep") + "\n")
-	b.WriteString(translateFunc(info, funcDecl(trieFiles, "SlimTrie", "getLabelIdxOfKey"), "getLabelIdxOfKey") + "\n")
+	b.WriteString("   Meaning of the `Go.*` operations: lean/Generated/GoSem.lean. -/\nset_option linter.unusedVariables false\nnamespace Generated\n\n")
+	fn := func(recv, name string) *ast.FuncDecl { return funcDecl(trieFiles, recv, name) }
+	b.WriteString(translateFunc(info, trieFiles, fn("", "encStep"), "encStep") + "\n")
+	b.WriteString(translateFunc(info, trieFiles, fn("", "decStep"), "decStep") + "\n")
+	b.WriteString(translateFunc(info, trieFiles, fn("SlimTrie", "getLabelIdxOfKey"), "getLabelIdxOfKey") + "\n")
 	for _, n := range []string{"8", "16", "32", "64"} {
-		fd := funcDecl(trieFiles, "SlimTrie", "GetI"+n)
-		b.WriteString(translateAssigned(info, fd, "v", "getI"+n) + "\n")
+		fd := fn("SlimTrie", "GetI"+n)
+		b.WriteString(translateAssigned(info, trieFiles, fd, "v", "getI"+n) + "\n")
 		if n != "8" {
-			b.WriteString(translateAssigned(info, fd, "stIdx", "getI"+n+"Index") + "\n")
+			b.WriteString(translateAssigned(info, trieFiles, fd, "stIdx", "getI"+n+"Index") + "\n")
 		}
 	}
+	// decision logic and loops
+	b.WriteString(translateFunc(info, trieFiles, fn("", "normalizeOpt"), "normalizeOpt") + "\n")
+	b.WriteString(translateFunc(info, trieFiles, fn("", "newToKeep"), "newToKeep") + "\n")
+	b.WriteString(translateFunc(info, trieFiles, fn("", "stepToPos"), "stepToPos") + "\n")
+	// the choice of the short bitmap size
+	b.WriteString(translateFuncP(info, trieFiles, fn("", "memIncrOfShortSize"), "memIncrOfShortSize", true) + "\n")
+	b.WriteString(translateFunc(info, trieFiles, fn("", "findMinShortSize"), "findMinShortSize") + "\n")
+	// offset arithmetic of the inner-node bitmaps
+	iv := fn("SlimTrie", "initVars")
+	b.WriteString(translateFieldInit(info, trieFiles, iv, "BigInnerOffset", "bigInnerOffset") + "\n")
+	b.WriteString(translateFieldInit(info, trieFiles, iv, "ShortMinusInner", "shortMinusInner") + "\n")
+	gi := fn("SlimTrie", "getIthInnerFrom")
+	b.WriteString(translateNthAssigned(info, trieFiles, gi, "qr.from", 0, 2, "innerFromBig") + "\n")
+	b.WriteString(translateNthAssigned(info, trieFiles, gi, "qr.from", 1, 2, "innerFromSmall") + "\n")
+	gn := fn("SlimTrie", "getNode")
+	b.WriteString(translateNthAssigned(info, trieFiles, gn, "qr.from", 0, 2, "getNodeFromBig") + "\n")
+	b.WriteString(translateNthAssigned(info, trieFiles, gn, "qr.from", 1, 2, "getNodeFromSmall") + "\n")
+	b.WriteString(translateFirstResult(info, trieFiles, fn("SlimTrie", "getLeafIndex"), "getLeafIndex") + "\n")
 	// package encode: the size literals of the fixed-width integer encoders
 	encFiles := parseDir(filepath.Join(repo, "encode"))
 	encInfo := &types.Info{Types: map[ast.Expr]types.TypeAndValue{}, Defs: map[*ast.Ident]types.Object{}, Uses: map[*ast.Ident]types.Object{}}
 	encConf := types.Config{Importer: fakeImporter{}, Error: func(error) {}}
 	encConf.Check("encode", fset, encFiles, encInfo)
 	for _, ty := range []string{"I8", "I16", "I32", "I64", "U16", "U32", "U64"} {
-		b.WriteString(translateFunc(encInfo, funcDecl(encFiles, ty, "GetSize"), "encSize"+ty) + "\n")
-		b.WriteString(translateFunc(encInfo, funcDecl(encFiles, ty, "GetEncodedSize"), "encEncodedSize"+ty) + "\n")
+		b.WriteString(translateFunc(encInfo, encFiles, funcDecl(encFiles, ty, "GetSize"), "encSize"+ty) + "\n")
+		b.WriteString(translateFunc(encInfo, encFiles, funcDecl(encFiles, ty, "GetEncodedSize"), "encEncodedSize"+ty) + "\n")
 	}
 	b.WriteString("end Generated\n")
 	must(os.WriteFile(out, []byte(b.String()), 0o644))
